@@ -51,6 +51,13 @@ def runLines {σ : Type} (step : σ → Line → Step σ) (init : σ) (lines : A
     i := i + 1
   return rep
 
+/-- Monitor step for a relational (non-deterministic) specification: `cands` are the abstract states
+still compatible with everything the implementation answered so far; `alts s` lists the admitted
+(next state, rendered answer) pairs.  Returns the surviving candidates (empty = violation). -/
+def ndStep {τ : Type} [BEq τ] (cands : List τ) (alts : τ → List (τ × List Val)) (res : List Val) : List τ :=
+  let next := cands.flatMap (fun s => (alts s).filterMap (fun p => if p.2 == res then some p.1 else none))
+  next.foldl (fun acc s => if acc.contains s then acc else acc ++ [s]) []
+
 /-- A registered kind: how to build the initial state from the `CASE` parameters and how to step. -/
 structure Kind where
   σ : Type
